@@ -5,3 +5,4 @@ import YataDriver.SpecEval
 import YataDriver.Action
 import YataDriver.Candle
 import YataDriver.Renko
+import YataDriver.Indicators
